@@ -152,7 +152,7 @@ def run_check(prop, spec, tier):
     tcfg = dict(spec[tier])
     seed = int(os.environ.get('VERIF_SEED', tcfg.get('seed', 1)))
     tcfg['tier'] = tier
-    tcfg['regions'] = open_regions(prop)
+    tcfg['regions'] = [] if os.environ.get('VERIF_REGIONS') == 'none' else open_regions(prop)
     nworkers = int(os.environ.get('VERIF_WORKERS', tcfg.get('workers', min(16, os.cpu_count() or 4))))
     runs = int(os.environ.get('VERIF_RUNS', tcfg['runs']))
     chunk = int(tcfg.get('chunk', 25))
